@@ -31,7 +31,7 @@ from vf.lib_C05_world import brief, clear_all_memo, okind, outcome, same_outcome
 
 ID = "C05"
 LEVEL = "exploration"
-BUDGET_S = {"quick": 24.0, "thorough": 420.0}
+BUDGET_S = {"quick": 30.0, "thorough": 420.0}
 RULE = ("a case is a block of random histories of one family (state / indexed / hist / prof); a history builds a world, "
         "makes reads, then alternates one mutation with a re-read of every earlier read on the live objects and on a "
         "freshly built twin. One evaluation = one live-vs-twin comparison of a read. Non-trivial = the read had been made "
@@ -1149,7 +1149,7 @@ def memo_stale_paths(live_state, twin_state, live_data, twin_data):
     return out
 
 
-def culprit_nodes(live_state, twin_state, live_data, twin_data, view, others=()):
+def culprit_nodes(live_state, twin_state, live_data, twin_data, view, others=(), want_all=False):
     """Classes of the minimal subtrees of the live state whose own mask differs from the twin's.  `others`: further
     (live dataset, twin dataset) pairs on which the nodes are compared on the full mask (a mask obtained through a key
     join is computed - and memoized - on the other dataset)."""
@@ -1175,6 +1175,8 @@ def culprit_nodes(live_state, twin_state, live_data, twin_data, view, others=())
     for p, s in stale_at.items():
         if s and not any(stale_at[q] for q in stale_at if len(q) > len(p) and q[:len(p)] == p):
             out.append((p, cls_at[p]))
+    if want_all:
+        return out, set(p for p, s in stale_at.items() if s)
     return out
 
 
@@ -1241,24 +1243,38 @@ def stale(H, r, twin, mut, during, lo, to):
                 if earlier is not None:
                     who = earlier
                     ctx.count("stale_node_attributed_to_earlier_mutation")
-            groups.setdefault((who[0], who[1], W.family(cls)), []).append(cls)
+            groups.setdefault((who[0], who[1], W.family(cls)), []).append(tuple(path))
         if not groups:
             groups[(current[0], current[1], "none")] = []
     else:
         cul, groups = [], {(current[0], current[1], "no_state"): []}
     clear_all_memo()
     H.touch.clear()    # every memo entry is fresh again
+    # the cause is judged per culprit node: a node that agrees with the twin once all to_mask memos are cleared was
+    # stale because of a memo entry; one that still differs has a cache of its own (a read can have both kinds)
+    still = None
+    if r.get("s") is not None:
+        try:
+            rest, still = culprit_nodes(H.live.states[r["s"]], twin.states[r["s"]], H.live.datas[r["d"]],
+                                        twin.datas[r["d"]], None,
+                                        [(H.live.datas[i], twin.datas[i]) for i in range(len(H.live.datas))
+                                         if i != r["d"]] if getattr(H, "joins", None) else [], want_all=True)
+        except Exception:
+            rest, still = [], None
     if r.get("synthetic"):
-        healed = not culprit_nodes(H.live.states[r["s"]], twin.states[r["s"]], H.live.datas[r["d"]],
-                                   twin.datas[r["d"]], None)
+        healed = not rest
     else:
         healed = agree(H, r, exec_read(H.live, r), to)
-    cause = "to_mask_memo" if healed else "not_memo"
     detail = {"read": describe_read(r), "live": brief(lo), "twin": brief(to), "before_mutation": brief(r["last"]),
               "culprit_nodes": [[list(p), c] for p, c in cul], "mutation": {k: v for k, v in mut.items()},
               "history": describe_history(H)}
-    for (kind, mutated, fam) in groups:
-        ctx.violation(dict(base, mutation=kind, mutated=mutated, culprit=fam, cause=cause), detail)
+    for (kind, mutated, fam), paths in groups.items():
+        if paths and still is not None:
+            causes = sorted(set("not_memo" if p in still else "to_mask_memo" for p in paths))
+        else:
+            causes = ["to_mask_memo" if healed else "not_memo"]
+        for cause in causes:
+            ctx.violation(dict(base, mutation=kind, mutated=mutated, culprit=fam, cause=cause), detail)
     ctx.count("stale_results")
     if not healed and r.get("s") is not None:
         poison(H, r["s"])
@@ -1472,7 +1488,7 @@ def run_pressure_history(ctx, hid):
 
 
 # ---------------------------------------------------------------- cases
-N_BLOCKS = {"quick": 1600, "thorough": 60000}
+N_BLOCKS = {"quick": 288, "thorough": 60000}
 PATTERN = ["table", "cube", "hist", "linked", "prof", "indexed", "aligned", "prof", "linked", "hist", "table", "cube",
            "hist", "prof", "pressure", "aligned", "pressure", "joined", "indexed", "joined", "pressure", "pressure"]
 PER_BLOCK = {"table": 5, "cube": 5, "linked": 5, "aligned": 5, "joined": 4, "pressure": 1, "indexed": 6, "hist": 2, "prof": 2}
